@@ -47,7 +47,7 @@ CHECKS = {
    "DESIGN.md §2 C08"),
  "C16": ("model_checking", "E1-choice",
    "stateless choice-tree exploration of workbook metadata (sheet lists, names, visibility, kinds, defined names, date system) in four formats on the real readers",
-   "Workbooks with 0-3 sheets over 8 names (XML specials, quotes, non-ASCII, astral, 31 characters), every visibility and every sheet kind the format can express, 0-2 reference-valued defined names, both date systems with a date cell on every worksheet, xlsx prefix / xls name packing / xls substreams in reverse of BoundSheet8 order / a formula-less name record first (xls, xlsb): all choice vectors with <=3 (thorough 4) deviations plus the full product over one-sheet workbooks; sheet_names, sheets_metadata, defined_names and the date cells are compared exactly and in order.",
+   "Workbooks with 0-3 sheets over 9 names (XML specials, quotes, non-ASCII, a C1 control character, astral, 31 characters), every visibility and every sheet kind the format can express, 0-2 reference-valued defined names, both date systems with a date cell on every worksheet, xlsx prefix / xls name packing / xls substreams in reverse of BoundSheet8 order / a formula-less name record first (xls, xlsb): all choice vectors with <=3 (thorough 4) deviations plus the full product over one-sheet workbooks; sheet_names, sheets_metadata, defined_names and the date cells are compared exactly and in order.",
    "Trusted: the four writers; defined names are reference-valued only.",
    "DESIGN.md §2 C16"),
  "C10": ("model_checking", "E1-choice",
@@ -57,7 +57,7 @@ CHECKS = {
    "DESIGN.md §2 C10"),
  "C19": ("model_checking", "E1-choice",
    "stateless choice-tree exploration of atom strings x every storage form of all four formats on the real readers",
-   "All 2955 strings of <=3 atoms over 14 atoms (XML specials, spaces, tab, LF, ]]>, Latin-1, BMP, astral) plus the empty and a 32767-character string are written in every storage form: xlsx shared/inline/formula string x entity/decimal/hex references/CDATA x plain/1-3 rich runs/phonetic runs x empty <si/> before or between x prefix; xlsb Isst (plain/rich/phonetic)/St/FmlaString; xls SST (plain/rich/ExtRst)/LABEL/STRING in both packings; ods content (text:s variants, literal spaces, spans, paragraphs) or attribute. Exact string equality, and the neighbouring string must be unaffected.",
+   "All 3616 strings of <=3 atoms over 15 atoms (XML specials, spaces, tab, LF, ]]>, Latin-1, C1 control U+0091, BMP, astral) plus the empty and a 32767-character string are written in every storage form: xlsx shared/inline/formula string x entity/decimal/hex references/CDATA x plain/1-3 rich runs/phonetic runs x empty <si/> before or between x prefix; xlsb Isst (plain/rich/phonetic)/St/FmlaString; xls SST (plain/rich/ExtRst)/LABEL/STRING in both packings; ods content (text:s variants, literal spaces, spans, paragraphs) or attribute. Exact string equality, and the neighbouring string must be unaffected.",
    "Trusted: the four writers; an empty-string cell may read as Empty; ods tab only in the attribute form.",
    "DESIGN.md §2 C19"),
  "C02": ("model_checking", "E1-choice",
